@@ -63,7 +63,7 @@ theorem DbEq.trans {a b c : Db} (h₁ : DbEq a b) (h₂ : DbEq b c) : DbEq a c :
 theorem export_reload (db : Db) (wf : DbWF db) :
     ∃ F d, exportAll db = some F ∧ readFile F = some d ∧ DbEq d db := by
   obtain ⟨F, hF, hok, _, hall⟩ := exportAll_spec db wf
-  obtain ⟨d, hd, heq⟩ := readFile_complete db wf F hok hall
+  obtain ⟨d, hd, heq, _⟩ := readFile_complete db wf F hok hall
   exact ⟨F, d, hF, hd, heq⟩
 
 example : DbWF [(⟨false, [0, 1]⟩, [("g", .scalar 1), ("@f", .arr ⟨[1, 2], [1, 2]⟩), ("a", .arr ⟨[1], [5]⟩)]),
@@ -93,6 +93,10 @@ theorem run_scoped (H : Pt → κ) (hinj : Function.Injective H) (s : State κ) 
       obtain ⟨s1, he, hinv, _⟩ := inv_export H s hs a
       obtain ⟨s', hr, hi⟩ := ih _ hinv (h2 _ (by simp [step, he]))
       exact ⟨s', by simp [run, step, he, hr], hi⟩
+    | reload =>
+      obtain ⟨s1, he, hinv, _⟩ := inv_reload H s hs
+      obtain ⟨s', hr, hi⟩ := ih _ hinv (h2 _ (by simp [step, he]))
+      exact ⟨s', by simp [run, step, he, hr], hi⟩
 
 /-- **incremental_eq_single.** For every interleaving of stores (new points, new outputs at
     existing points, in any order and of any kind) and exports (append or fresh), with an injective
@@ -107,7 +111,7 @@ theorem incremental_eq_single (H : Pt → κ) (hinj : Function.Injective H) (ops
       DbEq dInc s.db ∧ DbEq dOne s.db ∧ DbEq dInc dOne := by
   obtain ⟨s, hr, hinv⟩ := run_scoped H hinj State.init (inv_init H) ops hsc
   obtain ⟨s', he, hinv', hdb, _, hall⟩ := inv_export H s hinv append
-  obtain ⟨dInc, hd1, heq1⟩ := readFile_complete s.db hinv.wf s'.file (hdb ▸ hinv'.file) hall
+  obtain ⟨dInc, hd1, heq1, _⟩ := readFile_complete s.db hinv.wf s'.file (hdb ▸ hinv'.file) hall
   obtain ⟨F, dOne, hF, hd2, heq2⟩ := export_reload s.db hinv.wf
   exact ⟨s, s', dInc, F, dOne, hr, he, hd1, hF, hd2, heq1, heq2, heq1.trans heq2.symm⟩
 
@@ -140,8 +144,25 @@ theorem reload_after_every_export (H : Pt → κ) (hinj : Function.Injective H) 
       | some s2 => simp only [hst] at h ⊢; exact ih s2 s1 h
   obtain ⟨s, hr, hinv⟩ := run_scoped H hinj State.init (inv_init H) ops (hpre _ _ hsc)
   obtain ⟨s', he, hinv', hdb, _, hall⟩ := inv_export H s hinv append
-  obtain ⟨d, hd, heq⟩ := readFile_complete s.db hinv.wf s'.file (hdb ▸ hinv'.file) hall
+  obtain ⟨d, hd, heq, _⟩ := readFile_complete s.db hinv.wf s'.file (hdb ▸ hinv'.file) hall
   exact ⟨s', d, by rw [hrun _ _ _ hr, he], hd, hdb ▸ heq⟩
+
+/-- **reload_restores_last_export.** A restart (`Database.from_hdf`, or `update_from_hdf` into a
+    new database as the `load` option of the scenario backups does) after any in-scope history,
+    an export, and then *any* further stores (they are lost): the new database holds the content
+    exported last — and, restarts being operations of the state machine, `incremental_eq_single`
+    and `reload_after_every_export` cover the histories that continue after a restart. -/
+theorem reload_restores_last_export (H : Pt → κ) (hinj : Function.Injective H) (ops : List Op)
+    (hsc : Scoped H State.init ops) (append : Bool) (sts : List (Pt × Outs)) :
+    ∃ s s1 s3, run H State.init ops = some s ∧ doExport s append = some s1 ∧
+      doReload H (sts.foldl (fun st po => doStore H st po.1 po.2) s1) = some s3 ∧
+      DbEq s3.db s.db := by
+  obtain ⟨s, hr, hinv⟩ := run_scoped H hinj State.init (inv_init H) ops hsc
+  obtain ⟨s1, he, hinv1, hdb, _, hall⟩ := inv_export H s hinv append
+  obtain ⟨d, hd, heq, _⟩ := readFile_complete s.db hinv.wf s1.file (hdb ▸ hinv1.file) hall
+  refine ⟨s, s1, { db := d, pend := d.foldl (fun pend po => addPending H pend po.1) [], file := s1.file },
+    hr, he, ?_, heq⟩
+  simp only [doReload, foldl_doStore_file, hd]
 
 /-- **pending_complete.** Along every in-scope history (injective hash), every database point
     whose file entry is missing or does not yet hold all its outputs is in the pending buffer —
